@@ -3,14 +3,19 @@
 against the real interpreter.   usage: validate_lib.py [seed] [scale]
 Every real-interpreter call runs in a worker process under an alarm; the whole run under `timeout`."""
 import sys, os, random, itertools, subprocess, signal, collections, time
-sys.path.insert(0, '/repo/src')
-sys.path.insert(0, '/tmp/agents/L/verif')
 from harness import proto
 from multiprocessing import Pool
 
-DRIVER = '/tmp/agents/L/verif/lean/.lake/build/bin/driver'
-SEED = int(sys.argv[1]) if len(sys.argv) > 1 else 1
-SCALE = float(sys.argv[2]) if len(sys.argv) > 2 else 1.0
+
+
+def gen_cases(SEED, SCALE):
+    """(func, driver request, program text, variables) for the C19 correspondence and oracle"""
+    g = {"SEED": SEED, "SCALE": SCALE, "random": random, "itertools": itertools, "proto": proto}
+    exec(_GEN_SOURCE, g)
+    return g["CASES"]
+
+
+_GEN_SOURCE = r'''
 rnd = random.Random(SEED)
 
 I = lambda n: ('i', n)
@@ -242,49 +247,9 @@ for a in WORDS + EXTRA:
             for f, name in [('shl', 'bit_shift_left'), ('shr', 'bit_shift_right')]:
                 add(name, f"(lib {f} (i {a}) (i {c}))", f"{name}(a, n)", a=I(a), n=I(c))
 
-# ================================================================== run the model
-t0 = time.time()
-req_text = "".join(c[1] + "\n" for c in CASES)
-r = subprocess.run([DRIVER], input=req_text, capture_output=True, text=True, timeout=600)
-model_out = r.stdout.splitlines()
-assert len(model_out) == len(CASES), (len(model_out), len(CASES), r.stderr[:500])
-print(f"{len(CASES)} cases; model answered in {time.time() - t0:.1f}s", flush=True)
 
-# ================================================================== run the implementation (worker processes, alarm per call)
-_it = None
+'''
 
-class Alarm(Exception):
-    pass
-
-def _on_alarm(sig, frm):
-    raise Alarm()
-
-def impl_one(idx):
-    global _it
-    from ckl.interpreter import Interpreter
-    from ckl.errors import CklRuntimeError
-    if _it is None:
-        _it = Interpreter(True, True)
-        signal.signal(signal.SIGALRM, _on_alarm)
-    func, req, src, env = CASES[idx]
-    for k, v in env.items():
-        _it.environment.put(k, proto.to_ckl(v))
-    signal.alarm(20)
-    try:
-        v = _it.interpret(src, "t")
-        signal.alarm(0)
-        try:
-            return idx, ('ok', proto.enum_form(proto.from_ckl(v, sorted_enum=True)))
-        except proto.NotData as e:
-            return idx, ('notdata', str(e))
-    except CklRuntimeError as e:
-        signal.alarm(0)
-        return idx, ('err', str(getattr(e, 'msg', e))[:80])
-    except Alarm:
-        return idx, ('timeout',)
-    except BaseException as e:
-        signal.alarm(0)
-        return idx, ('host', type(e).__name__ + ": " + str(e)[:80])
 
 def model_form(func, line):
     x = proto.parse_sx(line)
@@ -300,36 +265,3 @@ def model_form(func, line):
         return ('ok', proto.enum_form(('d', float(num) / float(den))))
     return ('ok', proto.enum_form(proto.from_sx(y)))
 
-if __name__ == '__main__':
-    stats = collections.defaultdict(lambda: collections.Counter())
-    diffs = []
-    done = 0
-    with Pool(14) as pool:
-        for idx, res in pool.imap_unordered(impl_one, range(len(CASES)), chunksize=64):
-            func = CASES[idx][0]
-            m = model_form(func, model_out[idx])
-            done += 1
-            if done % 10000 == 0:
-                print(f"  {done}/{len(CASES)} compared, {len(diffs)} differences, {time.time() - t0:.0f}s", flush=True)
-            if m[0] == 'unsupported':
-                stats[func]['unsupported'] += 1
-                continue
-            same = (m[0] == res[0] == 'err') or (m[0] == 'ok' and res[0] == 'ok' and m[1] == res[1])
-            if same:
-                stats[func]['agree_' + m[0]] += 1
-            else:
-                stats[func]['DIFF'] += 1
-                diffs.append((func, CASES[idx][1], CASES[idx][2], m, res))
-    print("\nfunction                 cases   agree(ok)  agree(err)  unsupported  DIFF")
-    tot = collections.Counter()
-    for f in sorted(stats):
-        s = stats[f]
-        c = sum(s.values())
-        print(f"{f:22s} {c:7d} {s['agree_ok']:10d} {s['agree_err']:10d} {s['unsupported']:11d} {s['DIFF']:6d}")
-        tot['cases'] += c
-        for k in s:
-            tot[k] += s[k]
-    print(f"{'TOTAL':22s} {tot['cases']:7d} {tot['agree_ok']:10d} {tot['agree_err']:10d} {tot['unsupported']:11d} {tot['DIFF']:6d}")
-    for d in diffs[:40]:
-        print("DIFF", d)
-    sys.exit(1 if diffs else 0)
